@@ -13,6 +13,10 @@
 (***************************************************************************)
 EXTENDS Edit, IOUtils
 
+RECURSIVE IsSubSeq(_, _)
+IsSubSeq(a, b) == IF a = <<>> THEN TRUE ELSE IF b = <<>> THEN FALSE
+                  ELSE IF a[1] = b[1] THEN IsSubSeq(Tail(a), Tail(b)) ELSE IsSubSeq(a, Tail(b))
+
 Cases == ndJsonDeserialize(IOEnv.TRACE_FILE)
 N == Len(Cases)
 
@@ -66,7 +70,10 @@ Clauses(pre, e) ==
                   /\ (created => (o.sel = 1 /\ pre.layers = <<>> /\ Len(post.layers) = 1))
                   /\ (pruned => post.layers = RemoveAt(pre.layers, Len(pre.layers) - o.sel + 1)) )
             THEN {"C09_Addressing"} ELSE {}) \cup
-           (IF pre.lead # post.lead \/ pre.trail # post.trail \/ (pre.nl = 1 /\ post.nl # 1) THEN {"C04_FileTrivia"} ELSE {}))
+           \* comments: none lost, invented or reordered by `set'; `rm' may only lose some (those attached to the item)
+           (IF o.f = "set" /\ post.allc # pre.allc THEN {"C04_Comments"} ELSE {}) \cup
+           (IF o.f = "rm" /\ ~IsSubSeq(post.allc, pre.allc) THEN {"C04_Comments"} ELSE {}) \cup
+           (IF pre.nl = 1 /\ post.nl # 1 THEN {"C04_FinalNewline"} ELSE {}))
     ELSE
         (IF e.res \notin {"KeyError", "ValueError"} THEN {"C08_ErrorClass:" \o e.res} ELSE {}) \cup
         (IF post # pre \/ ~e.same_text \/ ~e.same_snap THEN {"C08_Atomic"} ELSE {}) \cup
